@@ -79,6 +79,35 @@ theorem common_exact (a b : DurTy) (h : PairTyOk a b) (x y : Int) (hin : PairIn 
   · unfold Spec.val; push_cast; rw [mul_assoc]; erw [e1]
   · unfold Spec.val; push_cast; rw [mul_assoc]; erw [e2]
 
+/-- The converting constructor `To(From)` (also the one of `time_point`, which converts `time_since_epoch()`), when it takes
+    part in overload resolution (`ratio_divide<Period2, period>::den == 1`): no overflow, and the converted count denotes the
+    same number of seconds. -/
+theorem convert_exact (dst frm : DurTy) (h : CastTyOk dst frm) (hden : cfD frm.per dst.per = 1) (c : Int)
+    (hc : frm.rep.inR c = true) (hres : dst.rep.inR (c * cfN frm.per dst.per) = true) :
+    convert dst frm c = .ok (c * cfN frm.per dst.per) ∧
+      Spec.val dst.per.toRat (c * cfN frm.per dst.per) = Spec.val frm.per.toRat c := by
+  obtain ⟨hto, hfrm, hp, hq, hdiv⟩ := h
+  obtain ⟨hN, _, hN', _, _⟩ := cf_facts frm.per dst.per hp hq
+  have hr := cf_rat frm.per dst.per hp hq
+  have hQ := toRat_pos dst.per hq
+  constructor
+  · unfold convert
+    rw [castCtx_eq dst frm hto hfrm hp hq hdiv, hden]
+    simp only [bind, Except.bind]
+    exact convertCore_eq dst.rep hto _ hN (by have := hdiv.1; omega) c (repOk_sub hfrm c hc) hres
+  · rw [hden] at hr
+    have e : (cfN frm.per dst.per : ℚ) = frm.per.toRat / dst.per.toRat := by simpa using hr
+    unfold Spec.val
+    push_cast
+    rw [e]
+    field_simp
+
+-- non-vacuity (test on a sample): 2 minutes (int32) as int64 milliseconds
+example : CastTyOk ⟨i64, ⟨1, 1000⟩⟩ ⟨i32, ⟨60, 1⟩⟩ ∧ cfD ⟨60, 1⟩ ⟨1, 1000⟩ = 1 := by decide +kernel
+example : convert ⟨i64, ⟨1, 1000⟩⟩ ⟨i32, ⟨60, 1⟩⟩ (-2) = .ok (-120000) := by
+  rw [(convert_exact _ _ (by decide +kernel) (by decide +kernel) _ (by decide) (by decide +kernel)).1]
+  decide +kernel
+
 /-- `operator<` compares the exact values. -/
 theorem lt_eq (a b : DurTy) (h : PairTyOk a b) (x y : Int) (hin : PairIn a b x y) :
     lt a b x y = .ok (Spec.lt a.per.toRat b.per.toRat x y) := by
@@ -377,6 +406,26 @@ theorem neg_eq (t : DurTy) (hr : RepOk t.rep) (c : Int) (hn : t.rep.inR (-c) = t
   unfold neg
   rw [repOk_promote hr, arith_ok _ (repOk_w hr) _ hn]
   simp only [bind, Except.bind, conv_of_inR _ (repOk_w hr) _ hn]
+
+/-- unary `+`: the conversion to `common_type_t<duration>` (the same representation, the period in lowest terms) keeps the count. -/
+theorem pos_eq (t : DurTy) (hr : RepOk t.rep) (hp : PerOk t.per) (hco : Coprime t.per) (hdiv : DivOk t.per t.per)
+    (c : Int) (hc : t.rep.inR c = true) : pos t c = .ok c := by
+  have hl : ((Int.lcm t.per.den t.per.den : Nat) : Int) ≤ imax.max := by
+    rw [Int.lcm_self]; have := hp.2.1; have := hp.2.2.2; omega
+  have hctx : posCtx t = .ok ⟨t.rep, imax, ⟨1, 1⟩⟩ := by
+    unfold posCtx
+    rw [commonTy_eq t t hp hp hl]
+    simp only [bind, Except.bind, cdTy_self t hp hco]
+    rw [castCtx_eq t t hr hr hp hp hdiv, (cf_self _ hp).1, (cf_self _ hp).2]
+  unfold pos
+  rw [hctx]
+  simp only [bind, Except.bind]
+  have := convertCore_eq t.rep hr 1 (by decide) (by decide) c (repOk_sub hr c hc) (by rwa [Int.mul_one])
+  rwa [Int.mul_one] at this
+
+-- non-vacuity (test on a sample)
+example : pos ⟨i32, ⟨1001, 30000⟩⟩ (-2147483648) = .ok (-2147483648) :=
+  pos_eq _ (by decide) (by decide) (by decide +kernel) (by decide) _ (by decide)
 
 /-- `+=`, `++` (duration and time_point): exact sum when representable -/
 theorem addAssign_eq (t : DurTy) (hr : RepOk t.rep) (c d : Int) (h : t.rep.inR (c + d) = true) :
